@@ -44,7 +44,7 @@ impl Prop for C05 {
             let cfg_a = if ch.bool() { FrontCfg::default_cfg() } else { FrontCfg::generate(ch) };
             let cfg_b = FrontCfg::generate(ch);
             let nonlinear_b = ch.chance(1, 3);
-            let case = execs::pick_case(ch, &snippets, 6, 6);
+            let case = execs::pick_case_bl(ch, &snippets, 6, 6, 2);
             let small = case.source.len() < 2500;
             let meta_a = MetaCfg::linear();
             let meta_b = if small && nonlinear_b { MetaCfg { linear_gas: false, linear_ap: false } } else { MetaCfg::linear() };
